@@ -77,11 +77,24 @@ func mayReturn(info *types.Info) func(*ast.CallExpr) bool {
 	}
 }
 
-// Graph builds (once) the node-level CFG of f.
+// Graph builds (once) the node-level CFG of f.  In inline mode (World.Inline)
+// the graph has the bodies of the package's unmentioned helpers spliced in at
+// their call statements (see inline.go).
 func (f *FuncInfo) Graph() *Graph {
-	if f.g != nil {
-		return f.g
+	if f.inlineOn() {
+		if f.gi == nil {
+			f.gi = buildGraph(f)
+			inlineHelpers(f.gi, f, 2, map[*FuncInfo]bool{f: true})
+		}
+		return f.gi
 	}
+	if f.g == nil {
+		f.g = buildGraph(f)
+	}
+	return f.g
+}
+
+func buildGraph(f *FuncInfo) *Graph {
 	info := f.Info()
 	c := cfg.New(f.Body(), mayReturn(info))
 	g := &Graph{F: f, CFG: c, byAst: map[ast.Node]*GNode{}, caseOf: map[*ast.CaseClause]ast.Stmt{}, AssignIdents: map[*ast.Ident]bool{}}
@@ -216,7 +229,6 @@ func (f *FuncInfo) Graph() *Graph {
 		}
 	}
 	g.Entry = first[c.Blocks[0]]
-	f.g = g
 	return g
 }
 
